@@ -1,16 +1,100 @@
 (* C12 — every accepted request gets exactly one truthful terminal result.
-   Statements only: each theorem is closed by [exact <lemma>]; proofs live in Proofs/Requests.v.
+   Statements only: each theorem is closed by [exact <lemma>]; proofs live in
+   Proofs/Requests.v and Proofs/RequestsInv.v.
+
    [run ops (init ps nc pq rq)] ranges over ALL sequences of critical sections of all actors
-   (clients, step / apply / commit workers, closer) over the model of /repo/request.go. *)
+   (clients incl. Release/reuse and draining, step / apply / commit workers, tick, gc, closer)
+   over Model/Requests.v, the model of /repo/request.go at critical-section granularity, for every
+   number of proposal shards, queue sizes, timeout value and choice of the pooled object.
+   [env_ok ops s0]: along the run the environment kept its three assumptions (fresh proposal
+   keys, node.close() once per table, an entry reported committed at most once) - the model
+   records a broken assumption in [h_broken].
+   [got s r] is the ghost list of everything pushed into the channels of request r's object
+   while r owned it; [nterm] / [ncomm] count terminal results / Committed notifications. *)
 From Coq Require Import NArith List.
-From DB Require Import Gen.GenC12 Model.Requests Proofs.Requests.
+From DB Require Import Gen.GenC12 Model.Requests Proofs.Requests Proofs.RequestsInv.
 Import ListNotations.
 Open Scope N_scope.
 
-(* every result ever pushed into a request's channels is the one its code path produces:
-   apply path -> Completed/Rejected with exactly the applied value, gc -> Timeout only after the
-   deadline, close -> Terminated, ... *)
-Theorem results_are_what_their_source_says : forall ps nc pq rq ops r e,
+(* never two terminal results for one request - although objects are pooled and reused *)
+Theorem at_most_one_terminal : forall ps nc pq rq ops, env_ok ops (init ps nc pq rq) ->
+  forall r, (nterm (got (run ops (init ps nc pq rq)) r) <= 1)%nat.
+Proof. exact at_most_one_terminal_proved. Qed.
+Print Assumptions at_most_one_terminal.
+
+(* at most one Committed notification, and nothing was delivered before it *)
+Theorem committed_at_most_once_and_first : forall ps nc pq rq ops, env_ok ops (init ps nc pq rq) ->
+  forall r, (ncomm (got (run ops (init ps nc pq rq)) r) <= 1)%nat /\
+            (forall pre e post, got (run ops (init ps nc pq rq)) r = pre ++ e :: post ->
+                                is_committed e = true -> pre = []).
+Proof. exact committed_at_most_once_and_first_proved. Qed.
+Print Assumptions committed_at_most_once_and_first.
+
+(* a result only ever reaches the request for which the table entry that produced it was
+   created ([e_to] = the request recorded in the slot at insertion time) *)
+Theorem no_cross_talk : forall ps nc pq rq ops, env_ok ops (init ps nc pq rq) ->
+  forall r e, In e (got (run ops (init ps nc pq rq)) r) -> e_to e = r.
+Proof. exact no_cross_talk_proved. Qed.
+Print Assumptions no_cross_talk.
+
+(* take-and-delete before notifying: whatever a live table / queue / worker still references
+   has no terminal result yet, is referenced once, through the object it still owns, and was
+   not released to the pool *)
+Theorem live_requests_have_no_result : forall ps nc pq rq ops, env_ok ops (init ps nc pq rq) ->
+  let s := run ops (init ps nc pq rq) in
+  NoDup (map sr (live s)) /\
+  forall sl, In sl (live s) -> nterm (got s (sr sl)) = 0%nat /\ o_owner (h_objs (H s) (so sl)) = sr sl /\
+                               r_rel (h_reqs (H s) (sr sl)) = false.
+Proof. exact live_requests_have_no_result_proved. Qed.
+Print Assumptions live_requests_have_no_result.
+
+(* truthfulness: every result ever delivered is the one its code path produces - the apply path
+   delivers Completed/Rejected carrying exactly the value it was given (no assumption on the
+   environment needed); gc delivers Timeout only when deadline < now; close only Terminated ...
+   [ev_ok] spells this out per source. With [applied_called_from_apply_path] (regenerated call
+   graph fact: only node.ApplyUpdate calls pendingProposals.applied) this is the local-apply half
+   of "Completed only after the entry was applied, with the value the state machine returned". *)
+Theorem completed_only_from_apply_with_that_value : forall ps nc pq rq ops r e,
   In e (got (run ops (init ps nc pq rq)) r) -> ev_ok e.
 Proof. exact reachable_evs_ok. Qed.
-Print Assumptions results_are_what_their_source_says.
+Print Assumptions completed_only_from_apply_with_that_value.
+
+(* a ReadIndex request is completed only by applied(a) for a batch whose confirmed index is
+   0 < index <= a, and only while its deadline is still ahead *)
+Theorem read_completed_only_when_applied : forall ps nc pq rq ops r e ap idx now dl,
+  In e (got (run ops (init ps nc pq rq)) r) -> e_src e = SReadApplied ap idx now dl ->
+  0 < idx /\ idx <= ap /\ (rc (e_res e) = cCompleted -> now < dl).
+Proof. exact read_applied_source_proved. Qed.
+Print Assumptions read_completed_only_when_applied.
+
+(* exactly one, the part proved: the requests the step worker took from the queue before close()
+   and hands to the stopped table afterwards (defect F3, repaired in /repo) are all terminated,
+   each exactly once, and the step does not panic.
+   PARTIAL: the full exactly_one_by_deadline ("every accepted request without a terminal result is
+   in [live]", then gc / close empty [live]) needs the converse of [live_requests_have_no_result]
+   (an accepted request with no result is still referenced), which is not proved here; the
+   harness monitor checks it on the implementation on every run. *)
+Theorem exactly_one_by_deadline_partial : forall ps nc pq rq ops lo hi, env_ok ops (init ps nc pq rq) ->
+  let s := run ops (init ps nc pq rq) in
+  h_err (H s) = 0 -> rd_stop (R s) = true ->
+  let s' := step s (AddReads lo hi) in
+  h_err (H s') = 0 /\ taken (R s') = [] /\ forall sl, In sl (taken (R s)) -> nterm (got s' (sr sl)) = 1%nat.
+Proof. exact stopped_add_terminates_taken_proved. Qed.
+Print Assumptions exactly_one_by_deadline_partial.
+
+(* ---- non-vacuity: concrete interleavings, evaluated ---- *)
+Definition ex_ops : list op :=
+  [ ProposeA 1 1 1001 5 0; ProposeB 0; Read 3 0; TakeReads; CommitP 1 1 1001;
+    AppliedTake 1 1 1001 77 false; AppliedGc; Drain 0; Release 0;
+    ProposeA 2 1 1002 1 0; ProposeB 2;          (* reuses the object of request 0 *)
+    CloseR; AddReads 7 30;                      (* F3 interleaving: get ; close ; add *)
+    Tick 9; GcP 0; CloseP 0; CloseC; CloseS; CloseL ].
+Definition ex_s := run ex_ops (init 1 true 8 8).
+Example ex_env_ok : env_ok ex_ops (init 1 true 8 8) /\ h_err (H ex_s) = 0.
+Proof. vm_compute. repeat split. Qed.
+Example ex_results :
+  map (fun e => (rc (e_res e), rv (e_res e))) (got ex_s 0) = [(cCommitted, 0); (cCompleted, 77)] /\
+  map (fun e => rc (e_res e)) (got ex_s 1) = [cTerminated] /\
+  map (fun e => rc (e_res e)) (got ex_s 2) = [cTimeout] /\
+  r_obj (h_reqs (H ex_s) 2) = r_obj (h_reqs (H ex_s) 0).
+Proof. vm_compute. repeat split; reflexivity. Qed.
